@@ -5,7 +5,7 @@ import fixture, vlib
 
 # the fourth name is long and not ASCII (1 ASCII byte + 45 two-byte characters = 91 bytes: byte offsets such as 48, 64
 # or len-45 fall inside a character)
-NAMES = ["app", "app2", "app-web", "x" + "обработка" * 5, "ap", "lib", "lib2", "core", "core.x", "srv", "srv_b", "x", "xy"]
+NAMES = ["app", "App", "app2", "app-web", "x" + "обработка" * 5, "ap", "lib", "lib2", "core", "core.x", "srv", "srv_b", "x", "xy"]
 
 
 def P(path):
@@ -46,9 +46,13 @@ def run_scenario(bins, sc, keep=False):
                     # noexec_later: executable now, made non-executable by an earlier command of the same run
                     fx.add_cmd(t["path"], c, _resolve_steps(fx, sc, steps), kind="def" if kd == "noexec_later" else kd, ext=ext,
                                cmd_dir=sc.get("cmd_dirs", {}).get(t["path"]), copy=(kd == "noexec_later"))
-                    if kd == "def" and "%s|%s" % (c, t["path"]) in sc.get("symlinks", ()):
-                        # the command file is a symbolic link to an executable kept elsewhere
-                        link = fx.cmd_files[(t["path"], c)][0]
+                    if kd in ("def", "noexec") and "%s|%s" % (c, t["path"]) in sc.get("symlinks", ()):
+                        # the command file is a symbolic link to an executable (or non-executable) file kept elsewhere
+                        if kd == "def":
+                            link = fx.cmd_files[(t["path"], c)][0]
+                        else:
+                            cd = sc.get("cmd_dirs", {}).get(t["path"])
+                            link = os.path.join(fx.repo, cd if cd else os.path.join(t["path"], "monorail", "cmd"), c + ext)
                         real = os.path.join(fx.repo, "shared-tools", "%s-%s" % (t["path"].replace("/", "_"), c))
                         os.makedirs(os.path.dirname(real), exist_ok=True)
                         os.replace(link, real)
@@ -124,7 +128,30 @@ def run_scenario(bins, sc, keep=False):
                     pass
             watcher = threading.Thread(target=watch, daemon=True)
             watcher.start()
-        res = fx.monorail(args, env=env, timeout=sc.get("timeout", 150), prlimit=sc.get("prlimit"))
+        if sc.get("interrupt"):
+            # a termination signal to monorail itself (not to its children) once some executables are running; the
+            # parked executables are released a little later, so whatever monorail still does in between is observed
+            import threading
+            it = sc["interrupt"]
+            def interrupt():
+                deadline = time.time() + 25
+                while time.time() < deadline:
+                    if sum(1 for e in fx.events() if e["k"] == "start") >= it.get("after_started", 1):
+                        break
+                    time.sleep(0.01)
+                time.sleep(it.get("delay_s", 0.05))
+                live = [q for q in fx.procs if q.poll() is None]
+                if live:
+                    try:
+                        os.kill(live[-1].pid, it["sig"])
+                    except OSError:
+                        pass
+                time.sleep(it.get("release_after_s", 1.0))
+                with open(fx.marker(it.get("marker", "sigrel")), "w"):
+                    pass
+            watcher = threading.Thread(target=interrupt, daemon=True)
+            watcher.start()
+        res = fx.monorail(args, env=env, timeout=sc.get("timeout", 150), prlimit=sc.get("prlimit"), allow_signal=bool(sc.get("interrupt")))
         if watcher is not None:
             watcher.join(timeout=30)
         hooks = []
@@ -164,6 +191,8 @@ def run_scenario(bins, sc, keep=False):
                "events": events, "rc": res["rc"] if res["rc"] is not None else -9,
                "doc": doc_abs(res["out"], len(cmds)), "timeout": bool(res.get("timeout")),
                "label": sc.get("label", "")}
+        if sc.get("interrupt"):
+            rec["interrupted"] = True
         if sc.get("trust"):
             rec["trust"] = True
         dbg = {"stderr": res["stderr"].decode("utf-8", "replace")[-600:], "wall": wall, "args": args,
@@ -354,8 +383,8 @@ def random_scenario(seed, nt_range=(5, 12), fail_prob=0.35, slow_deps=True):
                      {"op": "out", "stream": "stderr", "text": "err of %s\n" % key},
                      {"op": "exit", "code": code} if code >= 0 else {"op": "signal", "sig": -code}]
             scripts[key] = steps
-            if kd == "def" and rng.random() < 0.12:
-                symlinks.append(key)
+            if (kd == "def" and rng.random() < 0.12) or (kd == "noexec" and rng.random() < 0.5):
+                symlinks.append(key)        # a link to a non-executable file is as non-executable as the file itself
     sc = {"targets": ts, "commands": cmds, "kinds": kinds, "fou": fou, "scripts": scripts,
           "label": "random-%d" % seed, "symlinks": symlinks}
     if rng.random() < 0.35:
@@ -400,7 +429,7 @@ def random_scenario(seed, nt_range=(5, 12), fail_prob=0.35, slow_deps=True):
     return sc
 
 
-def barrier_scenario(size, position, seed=0, shared=False, chatty=False):
+def barrier_scenario(size, position, seed=0, shared=False, chatty=False, linked=False):
     """C16: a group of `size` members, each waiting until all the others have started.
     shared: every member resolves the command to the same executable file (a common command directory)."""
     rng = random.Random(seed)
@@ -440,6 +469,10 @@ def barrier_scenario(size, position, seed=0, shared=False, chatty=False):
                                      {"op": "exit", "code": 0}]
     sc = {"targets": ts, "commands": cmds, "kinds": {}, "fou": False, "scripts": scripts, "mode": "all",
           "label": "barrier-%d-%s%s%s" % (size, position, "-shared" if shared else "", "-chatty" if chatty else ""), "timeout": 170}
+    if linked:
+        # every second member's command file is a symbolic link to an executable kept elsewhere in the repository
+        sc["symlinks"] = ["build|" + m for m in members[::2]]
+        sc["label"] += "-linked"
     if shared:
         for t in ts:
             if t["path"] in members:
@@ -525,6 +558,23 @@ def late_success_scenario(nsib, seed=0, fail_first=True, sig=None):
     return {"targets": ts, "commands": ["build"], "kinds": {}, "fou": False, "scripts": scripts, "mode": "all",
             "hold": {"point": "run.join_next", "hit": 1, "until_ended": len(members)},
             "label": "late-success-%d-%s%s" % (nsib, "failfirst" if fail_first else "faillast", "" if sig is None else "-signal%d" % sig)}
+
+
+def interrupted_scenario(nmem, seed=0, sig=15):
+    """C04 (and C05's "started only as planned"): a termination signal reaches monorail itself while the first group is
+    executing.  Its executables keep running for a while (nobody signalled them).  Whatever monorail does with the signal,
+    nothing that depends on them -- no later group, no later command -- may be started before they have exited."""
+    rng = random.Random(seed)
+    members = ["m%d" % i for i in range(nmem)]
+    ts = [{"path": m} for m in members] + [{"path": "later", "uses": list(members)}, {"path": "last", "uses": ["later"]}]
+    rng.shuffle(ts)
+    scripts = {}
+    for m in members:
+        scripts["build|" + m] = [{"op": "out", "text": "member %s\n" % m}, {"op": "wait", "paths": ["sigrel"], "timeout_ms": 10000},
+                                 {"op": "exit", "code": 0}]
+    return {"targets": ts, "commands": ["build", "test"], "kinds": {}, "fou": False, "scripts": scripts, "mode": "all",
+            "interrupt": {"sig": sig, "after_started": nmem, "release_after_s": 0.8, "marker": "sigrel"}, "straggler_wait": 6.0,
+            "label": "interrupted-%d-signal%d" % (nmem, sig)}
 
 
 def impl_trace(rec, dbg):
